@@ -73,6 +73,9 @@ impl World {
         // the same for a call that stays inside the sweep: what it may pay is what it kept,
         // destructed and released
         let sweep0 = if self.cfg.coverage && call != Call::CollectDebt && p == Phase::Sweeping && dpos { self.snapshot(a) } else { None };
+        // marking phases begun inside the call = root traces - the one re-trace that may be pending
+        let root_ticks0 = tok::root_ticks();
+        let root_pending0 = matches!(p, Phase::Marking | Phase::Marked) && self.snapshot(a).is_some_and(|s| s.root_needs_trace);
 
         self.shield(&protect, &weak_protect);
         let res = {
@@ -271,7 +274,8 @@ impl World {
                 rt.allocs_at_sweep_start = Some(rt.allocs);
             }
         }
-        self.c09_after_call(a, call, p, post, d0, d1, count0, unwound, drops0);
+        let begun = (tok::root_ticks() - root_ticks0).saturating_sub(root_pending0 as u64);
+        self.c09_after_call(a, call, p, post, d0, d1, count0, unwound, drops0, begun);
         if post != Phase::Sweeping {
             self.rt[a as usize].allocs_at_sweep_start = None;
         }
@@ -323,10 +327,17 @@ impl World {
 
     /// C09: liveness bound and sleep bookkeeping around a collection call.
     #[allow(clippy::too_many_arguments)]
-    fn c09_after_call(&mut self, a: Aid, call: Call, p: Phase, post: Phase, d0: f64, _d1: f64, count0: usize, unwound: bool, drops0: usize) {
+    fn c09_after_call(&mut self, a: Aid, call: Call, p: Phase, post: Phase, d0: f64, _d1: f64, count0: usize, unwound: bool, drops0: usize, begun: u64) {
         let pacing = self.sh.arena(a).pacing;
         let debt_driven = matches!(call, Call::CollectDebt | Call::CycleDebt | Call::MarkDebt);
         let dpos = d0 > 0.0;
+        // a call allocates nothing. The first cycle it begins runs from Sleeping as one atomic unit,
+        // so it carries no debt over when it ends, and the collector has to stay asleep from then
+        // on: no call ever begins two marking phases (seen from outside as traces of the root)
+        if !unwound && begun >= 2 {
+            self.violate("C09.asleep", format!("{call:?} entered in phase {} began {begun} marking phases in one call: the first whole cycle ran atomically, no allocation was made after it, yet the collector did not stay asleep", phase_name(p)));
+            return;
+        }
         // asleep below the threshold: debt-driven calls change nothing
         if let Some((w, n)) = self.rt[a as usize].sleep_w() {
             if p == Phase::Sleeping && (n as f64) <= w && debt_driven && !unwound {
@@ -386,6 +397,13 @@ impl World {
             // debt read zero right before the finish_cycle that ended it (and the whole sweep ran
             // inside this call, so every object alive now was remembered by it)
             let atomic = p == Phase::Sleeping && (call == Call::FinishCycle || (debt_driven && dpos && call != Call::MarkDebt));
+            // collect_debt entered mid-cycle that finished that cycle, still had debt, and ran one
+            // more whole cycle before returning asleep: that second cycle was atomic too
+            let atomic_second = call == Call::CollectDebt && p != Phase::Sleeping && dpos && begun == 1 && !unwound;
+            if atomic_second {
+                self.stats.flag("C09.sleep-after-rolled-over-collect-debt");
+            }
+            let atomic = atomic || atomic_second;
             let zero_carry = call == Call::FinishCycle && p != Phase::Sleeping && p != Phase::Sweeping && d0 == 0.0;
             // finish_cycle from the middle of a sweep with zero debt: nothing is carried either
             // (the call allocates nothing, credits only lower the debt). What the sweep kept is
